@@ -348,13 +348,13 @@ Inductive case :=
 | KUtil (tbl : list (Q * Q)) (tp : Q) (mk : list bool) (d n m : list Q) (out : utilout)
 | KCompose (chi reg ldc ldr nn : Q) (out : Q * Q * Q).
 
-Definition agree_fit (tbl : list (Q * Q)) (tp : Q) (f : fit Q) (o : fitout) : bool :=
+Definition agree_fit_e (e : Q -> Q -> bool) (tbl : list (Q * Q)) (tp : Q) (f : fit Q) (o : fitout) : bool :=
   let O := QL tbl in
-  lq exact (@fit_data O f) (o_data o) &&
-  lq exact (@fit_residual_map O f) (o_residual o) &&
-  lq exact (@fit_normalized_residual_map O f) (o_normres o) &&
-  lq exact (@fit_chi_squared_map O f) (o_chimap o) &&
-  exact (@fit_chi_squared O f) (o_chi2 o) &&
+  lq e (@fit_data O f) (o_data o) &&
+  lq e (@fit_residual_map O f) (o_residual o) &&
+  lq e (@fit_normalized_residual_map O f) (o_normres o) &&
+  lq e (@fit_chi_squared_map O f) (o_chimap o) &&
+  e (@fit_chi_squared O f) (o_chi2 o) &&
   res_eqb close (@fit_reduced_chi_squared O f) (o_redchi2 o) &&
   close (@fit_noise_normalization O tp f) (o_nn o) &&
   close (@fit_log_likelihood O tp f) (o_ll o) &&
@@ -362,19 +362,21 @@ Definition agree_fit (tbl : list (Q * Q)) (tp : Q) (f : fit Q) (o : fitout) : bo
   oq close (@fit_log_evidence O tp f) (o_evidence o) &&
   oq close (@fit_figure_of_merit O tp f) (o_fom o) &&
   list_eqb (oq close) (@fit_residual_flux_fraction_map O f) (o_rff o) &&
-  list_eqb (oq exact) (@fit_signal_to_noise_map O f) (o_snr o).
+  list_eqb (oq e) (@fit_signal_to_noise_map O f) (o_snr o).
+Definition agree_fit := agree_fit_e exact.
 
-Definition agree_inv (tbl : list (Q * Q)) (iv : inv Q) (o : invout) : bool :=
+Definition agree_inv_e (e : Q -> Q -> bool) (tbl : list (Q * Q)) (iv : inv Q) (o : invout) : bool :=
   let O := QL tbl in
   list_eqb Nat.eqb (@no_regularization_index_list (objs iv)) (o_noreg o) &&
-  mq exact (@regularization_matrix O iv) (o_H o) &&
-  mq exact (@curvature_reg_matrix O iv) (o_FH o) &&
-  mq exact (@regularization_matrix_reduced O iv) (o_Hred o) &&
-  mq exact (@curvature_reg_matrix_reduced O iv) (o_FHred o) &&
-  lq exact (@reconstruction_reduced O iv) (o_sred o) &&
-  exact (@regularization_term O iv) (o_regterm o) &&
+  mq e (@regularization_matrix O iv) (o_H o) &&
+  mq e (@curvature_reg_matrix O iv) (o_FH o) &&
+  mq e (@regularization_matrix_reduced O iv) (o_Hred o) &&
+  mq e (@curvature_reg_matrix_reduced O iv) (o_FHred o) &&
+  lq e (@reconstruction_reduced O iv) (o_sred o) &&
+  e (@regularization_term O iv) (o_regterm o) &&
   close (@log_det_curvature_reg_matrix_term O iv) (o_ldc o) &&
   close (@log_det_regularization_matrix_term O iv) (o_ldr o).
+Definition agree_inv := agree_inv_e exact.
 
 Definition agree_util (tbl : list (Q * Q)) (tp : Q) (mk : list bool) (d n m : list Q) (o : utilout) : bool :=
   let O := QL tbl in
@@ -412,18 +414,18 @@ Definition map_ok (e : Q -> Q -> bool) (len : nat) (excl : nat -> bool) (g : nat
   Nat.eqb (length out) len &&
   all_idx len (fun i => if excl i then exact (nth i out 1) 0 else e (g i) (nth i out 0)).
 
-Definition spec_fit (tbl : list (Q * Q)) (tp : Q) (f : fit Q) (o : fitout) : bool :=
+Definition spec_fit_e (e : Q -> Q -> bool) (tbl : list (Q * Q)) (tp : Q) (f : fit Q) (o : fitout) : bool :=
   let O := QL tbl in
   let len := length (data f) in
   let ex := @excluded O f in
   let none := fun _ : nat => false in
   (* in-scope inputs only (the harness generates nothing else): an out-of-scope case is rejected, never waved through *)
   (@fit_okb O f && @noise_positiveb O f && @fit_inv_okb O f) &&
-  (map_ok exact len none (@s_data O f) (o_data o) &&
-   map_ok exact len ex (@s_residual O f) (o_residual o) &&
-   map_ok exact len ex (@s_normres O f) (o_normres o) &&
-   map_ok exact len ex (@s_chi O f) (o_chimap o) &&
-   exact (@s_chi_squared O f) (o_chi2 o) &&
+  (map_ok e len none (@s_data O f) (o_data o) &&
+   map_ok e len ex (@s_residual O f) (o_residual o) &&
+   map_ok e len ex (@s_normres O f) (o_normres o) &&
+   map_ok e len ex (@s_chi O f) (o_chimap o) &&
+   e (@s_chi_squared O f) (o_chi2 o) &&
    (let n := length (@fit_pixels O f) in
     match o_redchi2 o with
     | Ok v => negb (Nat.eqb n 0) && close (Qdiv (@s_chi_squared O f) (inject_Z (Z.of_nat n))) v
@@ -443,18 +445,20 @@ Definition spec_fit (tbl : list (Q * Q)) (tp : Q) (f : fit Q) (o : fitout) : boo
    (* signal to noise is not masked by the code: it is defined on every stored pixel with positive noise *)
    Nat.eqb (length (o_snr o)) len &&
    all_idx len (fun i => if Qle_bool (@at_ O (noise f) i) 0 then true
-                         else oq exact (Some (@s_signal_to_noise O f i)) (nth i (o_snr o) None))).
+                         else oq e (Some (@s_signal_to_noise O f i)) (nth i (o_snr o) None))).
+Definition spec_fit := spec_fit_e exact.
 
-Definition spec_inv (tbl : list (Q * Q)) (iv : inv Q) (o : invout) : bool :=
+Definition spec_inv_e (e : Q -> Q -> bool) (tbl : list (Q * Q)) (iv : inv Q) (o : invout) : bool :=
   let O := QL tbl in
   let R := reg_indices (objs iv) in
   @inv_okb O iv &&
-  (mq exact (@tabulate O (@s_H O iv) R) (o_Hred o) &&
-   mq exact (@tabulate O (@s_FH O iv) R) (o_FHred o) &&
-   lq exact (map (@at_ O (recon iv)) R) (o_sred o) &&
-   exact (@s_regularization_term O iv) (o_regterm o) &&
+  (mq e (@tabulate O (@s_H O iv) R) (o_Hred o) &&
+   mq e (@tabulate O (@s_FH O iv) R) (o_FHred o) &&
+   lq e (map (@at_ O (recon iv)) R) (o_sred o) &&
+   e (@s_regularization_term O iv) (o_regterm o) &&
    (if has_reg (objs iv) then close (@s_logdet_FH O iv) (o_ldc o) && close (@s_logdet_H O iv) (o_ldr o)
     else exact 0 (o_ldc o) && exact 0 (o_ldr o))).
+Definition spec_inv := spec_inv_e exact.
 
 Definition spec_util (tbl : list (Q * Q)) (tp : Q) (mk : list bool) (d n m : list Q) (o : utilout) : bool :=
   let O := QL tbl in
